@@ -207,7 +207,7 @@ def plain_part(R, n):
                 e = run_impl(lambda: acc.file_exists("info"))
                 reqs.append(("http_exists", [sc, wire_script([beh]), tree, b(acc.base_url), b"info"]))
                 pend.append(("exists", case, e, list(site.log), origin))
-                want = (["ok", False] if beh == ("status", 404)
+                want = (["ok", False] if isinstance(beh, tuple) and beh[1] == 404
                         else ["ok", True] if beh == ("status", 204) or beh in BODY_BEHS else ["AccessErr"])
                 if e != want:
                     R.violation("file_exists under an HTTP failure: neither False (404) nor a data-access error",
